@@ -9,7 +9,9 @@ distinct TLS flows. If the segments of flow `c` in it, in arrival order and with
 payloads `s0 :: rest` that concatenate to a ClientHello record followed by anything, the first one
 starting a handshake record and none after the completing one starting a new record, then in the
 interleaved run the analyzer reports for `c`: nothing before the completing segment, the parser's
-result on it, nothing afterwards — for every division into segments and every interleaving.
+result on it, nothing afterwards — for every division into segments and every interleaving. Only the
+flow's first segment may carry SYN (TCP Fast Open): a later SYN on the 4-tuple starts a NEW connection,
+whose bytes are deliberately not appended (`tlsProg`'s reset).
 -/
 namespace Huginn.Props.C08
 open Huginn.Tls Huginn.Gen.Tls Huginn.Lemmas.TlsReader Huginn.FlowProgs Huginn.Flow Huginn.Props.C08Bridge Huginn.Props.C07
@@ -23,6 +25,7 @@ theorem tls_exactly_once_interleaved {σ : Type} (parse : Huginn.Tls.Bytes → P
     (tr : List Seg) (c : FlowKey) (mine : List Seg)
     (hsel : tr.filter (fun p => decide (flowKeyOf p = c)) = mine)
     (hpay : mine.map (·.payload) = s0 :: rest)
+    (hsyn : ∀ x ∈ mine.drop 1, x.syn = false)
     (a : Nat) (hwin : ∀ x ∈ mine, a ≤ x.time ∧ x.time ≤ a + (tlsP parse).ttlMs)
     (cap : Nat) (hcap : 1 ≤ cap) (K : List FlowKey) (hK : ∀ x ∈ tr, flowKeyOf x ∈ K) (hlen : K.length ≤ cap) :
     (((tlsAnalyzer (tlsP parse)).runOuts ({ cap := cap }, ()) tr).filter
@@ -31,6 +34,20 @@ theorem tls_exactly_once_interleaved {σ : Type} (parse : Huginn.Tls.Bytes → P
         ++ List.replicate ((s0 :: rest).length - Spec.completionIdx r.length (s0 :: rest) - 1) none := by
   rw [tls_isolation_cap (tlsP parse) c tr cap K hK hlen, hsel,
     tls_trace_bridge_fresh parse a cap mine hwin]
+  have hS : runPacketsS parse ({ cap := cap } : Flows FlowKey σ)
+        (mine.map (fun x => ((⟨x.src, x.dst⟩ : FlowKey), x.syn, x.payload))) =
+      runPackets parse ({ cap := cap } : Flows FlowKey σ)
+        (mine.map (fun x => ((⟨x.src, x.dst⟩ : FlowKey), x.payload))) := by
+    cases mine with
+    | nil => rfl
+    | cons x xs =>
+      rw [List.map_cons, runPacketsS_headSyn parse _ _ x.syn x.payload _ (by intro e he; cases he)
+        (by
+          intro y hy
+          obtain ⟨z, hz, rfl⟩ := List.mem_map.1 hy
+          exact hsyn z (by simpa using hz))]
+      simp [List.map_map, Function.comp_def]
+  rw [hS]
   have hkeys : mine.map (fun x => ((⟨x.src, x.dst⟩ : FlowKey), x.payload)) = (s0 :: rest).map (fun p => (c, p)) := by
     rw [← hpay, List.map_map]
     apply List.map_congr_left
